@@ -150,7 +150,21 @@ def r3_sorted(c, facts):
     if not topo:
         c.bad(R, 'toposort-missing', 'module::load no longer sorts the module graph topologically')
         return
+    closure_form = None
     if not comp:
+        # `topo.into_iter().try_for_each(|node| loader.compile(&mods, graph.node_weight(node)..))?`
+        for cl in facts.closures_of(fn):
+            cs = P.call_blocks(cl, 'module::Loader::compile') if cl.mir else []
+            if not cs:
+                continue
+            for b, blk in fn.blocks():
+                for st in blk['stmts']:
+                    if st['s'] == 'assign' and st['rv']['r'] == 'aggr' and st['rv'].get('closure_id') == cl.id:
+                        cl_local = st['place']['l']
+                        users = [(b2, t2) for b2, t2 in fn.calls() if any(a.get('l') == cl_local for a in t2['args'])]
+                        if users:
+                            closure_form = (cl, cs, b, users[0])
+    if not comp and not closure_form:
         c.bad(R, 'compile-missing', 'module::load no longer compiles the loaded modules')
         return
     tb, tt = topo[0]
@@ -170,6 +184,23 @@ def r3_sorted(c, facts):
         c.bad(R, 'toposort-result-not-checked', 'the result of toposort is not propagated with ?: a cycle would not stop compilation')
         return
     cont, brk = arms
+    if closure_form:
+        cl, cs, cb_, (ub, ut) = closure_form
+        if fn.dominates(cont, ub) and ub not in fn.reachable_from(brk):
+            c.ok(R, {'loader.compile': 'in a closure run over the toposort order, dominated by the Ok continuation of toposort', 'line': ut['ln']})
+        else:
+            c.bad(R, 'compile-not-after-toposort', 'loader.compile is reachable without a successful toposort (%s:%s)' % (fn.file, ut['ln']))
+        recv = MF.slice_back(fn, ut['args'][0]['l'], idx) if 'l' in ut['args'][0] else {'calls': []}
+        rn = {x.split('::')[-1] for x, _, _ in recv['calls']}
+        cidx = MF.defs_index(cl)
+        t0 = cs[0][1]
+        sl = MF.slice_back(cl, t0['args'][2]['l'], cidx) if len(t0['args']) > 2 and 'l' in t0['args'][2] else {'calls': []}
+        names = {x.split('::')[-1] for x, _, _ in sl['calls']}
+        adaptors = rn & {'rev', 'skip', 'take', 'filter', 'step_by', 'skip_while', 'take_while', 'filter_map', 'chain'}
+        if 'toposort' in rn and 'node_weight' in names and not adaptors:
+            c.ok(R, {'loader.compile': 'locator taken from the toposort order (node_weight of each sorted node)'})
+        else:
+            c.bad(R, 'compile-order-not-from-toposort', 'the modules passed to loader.compile do not come from the toposort result')
     for b, t in comp:
         if fn.dominates(cont, b) and b not in fn.reachable_from(brk):
             c.ok(R, {'loader.compile': 'dominated by the Ok continuation of toposort', 'line': t['ln']})
@@ -199,7 +230,7 @@ def r3_sorted(c, facts):
     # compile must not happen inside the loading loop
     loops = loop_blocks(top)
     gets = [b for b, t in P.call_blocks(top, 'HashMap::get') if b in loops]
-    where = comp if fn is top else call_sites_of(top, fn)
+    where = (comp or ([closure_form[3]] if closure_form else [])) if fn is top else call_sites_of(top, fn)
     for b, t in where:
         if gets and gets[0] in top.reachable_from(b):
             c.bad(R, 'compile-inside-loading-loop', 'loader.compile runs while modules are still being loaded')
